@@ -176,6 +176,30 @@ def signed_copy(rows, salt):
     return W
 
 
+def chain_variant(rows, kind, salt=0):
+    """Weight matrices around the canonical chain 0 -> 1 -> ... -> p-1, for code that recognises 'the chain' by value:
+    'near_one'    - every edge weight is 1 only up to rounding (0.7 + 0.2 + 0.1, 1 + 1e-9, 1 - 1e-12) or exactly 1;
+    'tiny_extras' - edges i -> i+1 have weight 1 (salt even) or ordinary weights (salt odd), every other edge a weight far
+                    below any tolerance (1e-13, -1e-300, 5e-324, 1e-9, -1e-10): still an edge."""
+    p = len(rows)
+    W = np.zeros((p, p))
+    near = [0.7 + 0.2 + 0.1, 1 + 1e-9, 1 - 1e-12, 1.0]
+    tiny = [1e-13, -1e-300, 5e-324, 1e-9, -1e-10]
+    ordinary = [2.5, -1.0, 0.75, 1.0, -3.0]
+    k = salt
+    for i in range(p):
+        for j in range(p):
+            if rows[i] >> j & 1:
+                if kind == "near_one":
+                    W[i, j] = near[k % len(near)]
+                elif j == i + 1:
+                    W[i, j] = 1.0 if salt % 2 == 0 else ordinary[k % len(ordinary)]
+                else:
+                    W[i, j] = tiny[k % len(tiny)]
+                k += 1
+    return W
+
+
 def has_cycle_big(M):
     """Iterative 3-colour DFS over adjacency lists for graphs too large for the bitset oracle."""
     M = np.asarray(M)
